@@ -43,4 +43,5 @@ def jobs(tier):
                     out.append(mk('C11', f'errors/{where}/{kind}/sync={sync}', S.errors(kind, where, sync=sync), witnesses=W))
             out.append(mk('C11', f'errors/parent/{kind}/ret_exc', S.errors(kind, 'parent', ret_exc=True), witnesses=W))
     out += matrix_jobs('C11', 'm1', tier)
+    out += matrix_jobs('C11', 'm3', tier)
     return flat(out)
